@@ -64,6 +64,12 @@ Cases ==
   \cup {C("ones", In2, <<>>, r) : r \in {<<SN, SB>>, <<SB>>, <<SN>>, <<SBN>>, <<2, SN>>, <<SB, SB>>, <<SN, 1, SB>>}}
   \cup {C("sum_keepdims_squeeze", In2, <<ax>>, <<>>) : ax \in {0, 1, -1}}
   \cup {C("sum_reshape", In2, <<ax>>, <<>>) : ax \in {0, 1}}
+  \* Python slicing along a symbolic axis (a = <<axis, kind>>): kind 1 = [1:], 2 = [:-1], 3 = [::2], 4 = [-1:], 5 = [::-1], 6 = [1::2]
+  \cup {C("slice", In2, <<ax, k>>, <<>>) : ax \in {0, 1}, k \in 1..6}
+  \cup {C("pad", In2, <<lo0, hi0, lo1, hi1>>, <<>>) : lo0 \in {0, 1}, hi0 \in {0, 2}, lo1 \in {0}, hi1 \in {0, 1}}
+  \cup {C("roll", In2, <<ax, sh>>, <<>>) : ax \in {0, 1}, sh \in {1, -1, 3}}
+  \cup {C("swapaxes", In3, <<a1, a2>>, <<>>) : a1 \in {0, -1}, a2 \in {1, 2}}
+  \cup {C("moveaxis", In3, <<a1, a2>>, <<>>) : a1 \in {0, 2, -1}, a2 \in {0, 1, -1}}
 
 TileReps(c, s, b) ==
     \* numpy: reps shorter than the rank are left-padded with 1, a longer reps left-pads the shape with 1
@@ -99,6 +105,23 @@ Shape(c, b) ==
          [] c.op = "stack" -> InsertAt(s, IF c.a[1] < 0 THEN c.a[1] + rank + 1 ELSE c.a[1], c.a[2])
          [] c.op = "flip" -> s
          [] c.op = "sum_keepdims_squeeze" -> RemoveAt(s, {Norm(c.a[1], rank)})
+         [] c.op = "slice" ->
+              LET n == s[c.a[1] + 1]
+                  m == CASE c.a[2] \in {1, 2} -> n - 1
+                         [] c.a[2] = 3 -> (n + 1) \div 2
+                         [] c.a[2] = 4 -> 1
+                         [] c.a[2] = 5 -> n
+                         [] c.a[2] = 6 -> n \div 2
+              IN [s EXCEPT ![c.a[1] + 1] = m]
+         [] c.op = "pad" -> <<s[1] + c.a[1] + c.a[2], s[2] + c.a[3] + c.a[4]>>
+         [] c.op = "roll" -> s
+         [] c.op = "swapaxes" ->
+              LET i == Norm(c.a[1], rank) + 1   j == Norm(c.a[2], rank) + 1
+              IN [k \in 1..rank |-> IF k = i THEN s[j] ELSE IF k = j THEN s[i] ELSE s[k]]
+         [] c.op = "moveaxis" ->
+              LET src == Norm(c.a[1], rank)   dst == Norm(c.a[2], rank)
+                  rest == RemoveAt(s, {src})
+              IN InsertAt(rest, dst, s[src + 1])
          [] c.op = "sum_reshape" -> <<s[2 - c.a[1]], 1>>       \* x.sum(axis).reshape(x.shape[other], 1)
 
 VARIABLES case
@@ -107,7 +130,7 @@ Next == UNCHANGED case
 Spec == Init /\ [][Next]_case
 
 \* ---- laws of the algebra, for EVERY binding -------------------------------------------------------------------
-Preserving == {"squeeze", "expand_dims", "transpose", "reshape", "flip"}
+Preserving == {"squeeze", "expand_dims", "transpose", "reshape", "flip", "roll", "swapaxes", "moveaxis"}
 ElementsPreserved == case.op \in Preserving => \A b \in Binds : Prod(Shape(case, b)) = Prod(Concrete(case.insh, b))
 \* the rank of a result is fixed at export time: it cannot depend on the sizes the symbols are bound to
 RankIndependentOfBinding == \A b1, b2 \in Binds : Len(Shape(case, b1)) = Len(Shape(case, b2))
@@ -119,7 +142,11 @@ AxisSpellings == case.op \in {"expand_dims", "squeeze", "concat", "repeat", "fli
     \A c2 \in Cases : (c2.op = case.op /\ c2.insh = case.insh /\ Len(c2.a) = Len(case.a) /\ c2.r = case.r
                        /\ \A i \in 1..Len(case.a) : (i = 1 /\ Norm(c2.a[i], Len(case.insh) + (IF case.op = "expand_dims" THEN 1 ELSE 0)) = Norm(case.a[i], Len(case.insh) + (IF case.op = "expand_dims" THEN 1 ELSE 0))) \/ (i > 1 /\ c2.a[i] = case.a[i]))
                       => \A b \in Binds : Shape(c2, b) = Shape(case, b)
-AllPositive == \A b \in Binds : \A i \in 1..Len(Shape(case, b)) : Shape(case, b)[i] >= 1
+\* only slicing can produce an empty result (x[1:] of a single row)
+AllPositive == \A b \in Binds : \A i \in 1..Len(Shape(case, b)) : Shape(case, b)[i] >= (IF case.op = "slice" THEN 0 ELSE 1)
+\* complementary slices partition the axis: [::2] and [1::2]
+SlicePartition == case.op = "slice" /\ case.a[2] = 3 =>
+    \A b \in Binds : Shape(case, b)[case.a[1] + 1] + Shape([case EXCEPT !.a = <<case.a[1], 6>>], b)[case.a[1] + 1] = Concrete(case.insh, b)[case.a[1] + 1]
 
 Emit == PrintT(ToJson([c |-> case, shapes |-> [k \in 1..Len(BindSeq) |-> [b |-> BindSeq[k], s |-> Shape(case, BindSeq[k])]]]))
 =============================================================================
